@@ -88,6 +88,12 @@ def drain(loop):
 
 
 SHARED_RESOLVER = False      # harness switch: see World.resolver
+UNEXPECTED_EXC = 0           # harness switch: which exception class a resolver of kind UNEXPECTED raises (index into unexpected_exceptions())
+
+
+def unexpected_exceptions():
+    from py_gql import exc
+    return (ValueError, exc.UnknownEnumValue, exc.CoercionError, exc.GraphQLError, exc.ExecutionError, KeyError, exc.ScalarSerializationError)
 
 
 class World:
@@ -107,7 +113,7 @@ class World:
         if kind == RESOLVER_ERROR:
             raise ResolverError("boom %s" % key, extensions={"code": key})
         if kind == UNEXPECTED:
-            raise ValueError("unexpected %s" % key)
+            raise unexpected_exceptions()[UNEXPECTED_EXC]("unexpected %s" % key)
         if key == "nn" and self.nn_null:
             return None
         return root[key]
